@@ -29,7 +29,8 @@ def run(tier, seed):
     R = Recorder()
     tol = 1e-9
     n = 25 if tier == "quick" else 200
-    cuts = [1e-3 + (math.pi - 2e-3) * i / (n - 1) for i in range(n)] + [math.pi / 2, math.pi / 2 - 5e-4, math.pi / 2 + 5e-4, 1.57, 1.5715]
+    cuts = [1e-3 + (math.pi - 2e-3) * i / (n - 1) for i in range(n)] + [math.pi / 2, 1.57, 1.5715] + \
+        [math.pi / 2 + sg * 10.0 ** -k for k in range(2, 13) for sg in (1, -1)] + [math.pi / 2 + sg * 5 * 10.0 ** -k for k in range(3, 9) for sg in (1, -1)]
     grid = [math.pi * i / 64 for i in range(65)]
     for sdict, dc_w, name in ((lowpass, 0.0, "lowpass"), (highpass, math.pi, "highpass")):
         for strat in ("pole", "z", "pole_exp", "z_exp"):
@@ -40,7 +41,9 @@ def run(tier, seed):
                 ok, roots = poles_inside(f)
                 R.check(ok, "pole-strictly-inside-the-unit-circle", inp, "poles %r" % (roots,))
                 if strat in ("pole", "z"):
-                    R.check(abs(abs(H(f, c)) ** 2 - 0.5) < tol, "half-power-at-the-cut-off", inp, "|H(cutoff)|^2 = %r" % (abs(H(f, c)) ** 2))
+                    # the z designs compute R = (sin c -+ 1) / cos c: conditioning ~ eps / |cos c| near pi/2 (rounding, not a property matter)
+                    tol_c = tol + (4e-16 / max(abs(math.cos(c)), 1e-300) if strat == "z" else 0.0)
+                    R.check(abs(abs(H(f, c)) ** 2 - 0.5) < tol_c, "half-power-at-the-cut-off", inp, "|H(cutoff)|^2 = %r" % (abs(H(f, c)) ** 2))
                     mags = [abs(H(f, w)) for w in grid]
                     mono = all((a >= b - 1e-12) for a, b in zip(mags, mags[1:])) if name == "lowpass" else all((a <= b + 1e-12) for a, b in zip(mags, mags[1:]))
                     R.check(mono, "monotone-magnitude-response", inp, "not monotone")
@@ -68,6 +71,33 @@ def run(tier, seed):
                             return False, "a%d[%d] = %r, constant design gives %r" % (k, i, got, v)
                 return True, ""
             R.guard("stream-parameter-equals-the-constant-design-sample-by-sample", {"design": "%s.%s" % (name, strat)}, sv)
+    # stream-valued parameters of the other designs: coefficients sample by sample equal to the constant design
+    def coeffs(f):
+        out = {}
+        secs = list(f) if isinstance(f, CascadeFilter) else [f]
+        for si, sec in enumerate(secs):
+            for tag, poly in (("b", sec.numpoly), ("a", sec.denpoly)):
+                for k, v in poly.terms():
+                    out[(si, tag, k)] = list(v) if isinstance(v, Stream) else v
+        return out
+    fr_s, bw_s = [0.3, 1.1, 2.0, 0.7], [0.05, 0.2, 0.1, 0.4]
+    cases = [("resonator." + st, (lambda st=st: lambda fr, bw: resonator[st](fr, bw))()) for st in ("poles_exp", "z_exp", "freq_poles_exp", "freq_z_exp")] + \
+            [("gammatone." + st, (lambda st=st: lambda fr, bw: gammatone[st](fr, bw))()) for st in ("klapuri",)]   # slaney / sampled do not accept Streams
+    for nm, mkf in cases:
+        def sp():
+            got = coeffs(mkf(Stream(list(fr_s)), Stream(list(bw_s))))
+            for i, (fr, bw) in enumerate(zip(fr_s, bw_s)):
+                exp = coeffs(mkf(fr, bw))
+                for key, v in exp.items():
+                    g = got.get(key, 0)
+                    if isinstance(g, list):
+                        if len(g) != len(fr_s):
+                            return False, "coefficient stream %r has %d items for %d parameter values" % (key, len(g), len(fr_s))
+                        g = g[i]
+                    if abs(g - v) > 1e-9:
+                        return False, "coefficient %r at sample %d is %r, the constant design gives %r" % (key, i, g, v)
+            return True, ""
+        R.guard("stream-parameter-equals-the-constant-design-sample-by-sample", {"design": nm}, sp)
     # resonators
     bws = [1e-3, 0.01, 0.1, 0.5, 1.0]
     freqs = cuts[::3]
